@@ -62,10 +62,13 @@ fn trivia(rng: &mut Rng, n: &Names) -> &'static str {
     if n.no_comments {
         return "";
     }
-    match rng.below(10) {
+    match rng.below(12) {
         0 => "(* note *)\n",
         1 => "  (* a\n multi-line\n comment *)\n",
         2 => "\n",
+        // banner comments: nothing but stars between the delimiters, odd and even counts
+        3 => "(***)\n",
+        4 => "(*****)  (****)\n",
         _ => "",
     }
 }
